@@ -137,6 +137,8 @@ FOREIGN_V3 = v3_sid('foreign')
 HSDIRS = ['$' + hashlib.sha1(b'hsdir%d' % i).hexdigest().upper() + nick
           for i, nick in enumerate(['~alpha', '~bravo', '', '~delta', '~echo', '~foxtrot'])]
 
+MANY_DIRS = ['$' + hashlib.sha1(b'many-hsdir%d' % i).hexdigest().upper() + '~many%02d' % i for i in range(24)]
+
 SECOND_DIRS = ['$' + hashlib.sha1(b'second-hsdir%d' % i).hexdigest().upper() + nick for i, nick in enumerate(['~golf', '~hotel'])]
 
 CLIENT_BLOBS = ['QUJDREVGR0hJSktMTU5PUA', 'YWJjZGVmZ2hpamtsbW5vcA', 'MDEyMzQ1Njc4OWFiY2RlZg']     # 16 bytes, base64 unpadded
@@ -1189,7 +1191,15 @@ class C15Run(OnionRun):
         rot = ch.draw(5, 'rot')
         pool = HSDIRS[rot:5] + HSDIRS[:rot]
         own_dirs = pool[:n_own]
+        if ch.chance(1, 25, 'manydirs'):
+            # more directories than the 16 the progress estimate assumes (two descriptors, a larger spread): every one of
+            # them is an attempted upload
+            own_dirs = MANY_DIRS[:ch.pick([16, 17, 20, 24], 'manydirsn')]
+            self.sim.probe('more-than-16-upload-directories')
         own_out = [['UPLOADED', 'FAILED', 'NONE'][ch.weighted([4, 3, 1], 'oout')] for _ in own_dirs]
+        if len(own_dirs) > 6:
+            # (mostly failures first, a success late: what a cap on the bookkeeping would get wrong)
+            own_out = ['FAILED'] * (len(own_dirs) - 1) + [ch.pick(['UPLOADED', 'FAILED'], 'manylast')]
         self.own_plan = self.make_plan('own', None, own_dirs, own_out)
         n_f = ch.draw(5, 'nforeign')
         f_dirs, f_out = [], []
@@ -2003,6 +2013,10 @@ class C17Run(OnionRun):
         pool = HSDIRS[rot:5] + HSDIRS[:rot]
         dirs = pool[:c['n_dirs'] + (1 if tor.early_allowed else 0)]
         outs = [['UPLOADED', 'FAILED'][ch.weighted([3, 1], 'oout')] for _ in dirs]
+        if ch.chance(1, 25, 'manydirs'):
+            dirs = MANY_DIRS[:ch.pick([16, 17, 20, 24], 'manydirsn')]
+            outs = ['FAILED'] * len(dirs)
+            self.sim.probe('more-than-16-upload-directories')
         outs[-1] = 'UPLOADED'
         self.own_plan = self.make_plan('own', None, dirs, outs)
         v3 = c['version'] == 3
